@@ -335,15 +335,27 @@ def defer():
         return
 
     delay = []
-    for t in filter(
-        lambda j: j.get('status') not in [State.running, State.waiting], per
-    ):
-        t.set('status', State.delayed)
-        for p in t.get('period'):
+    now = datetime.datetime.now(datetime.UTC)
+    midnight = now.replace(hour=0, minute=0, second=0, microsecond=0)
+    day_over = 86401 - (now - midnight).total_seconds()
+    for t in per:
+        busy = not _is_idle(t)  # has work or executes: exempt until done
+        served = t.get('served', {})  # event -> the occurrence it fired for
+        t.set('served', served)
+        if not busy:
+            t.set('status', State.delayed)
+        for i, p in enumerate(t.get('period')):
             try:
                 ts = _delay(p).total_seconds()
 
                 if ts <= 300.0:
+                    # look again when its day is over: _delay() designates
+                    # the occurrence of the next period from then on
+                    delay.append(day_over)
+                    moment = round(now.timestamp() + ts)
+                    if busy or served.get(i) == moment:
+                        continue
+                    served[i] = moment
                     que.append(t)
                     que.sort(key=lambda i: i.get('level'))
                     t.set('status', State.waiting)
